@@ -27,6 +27,7 @@ so that a repair of one defect breaks only its own module):
              so the returned specific internal energy e = Γ T/(γ-1) is negative whenever T > 0.
 -/
 import EPV.Gen.Noh
+import EPV.Lemmas.Bridge.Noh
 import EPV.Gen.Noh2
 import EPV.Gen.Noh2Cog
 import EPV.Gen.Cog1
@@ -71,8 +72,7 @@ noncomputable def nohShock (p : Noh.P) (t : ℝ) : ℝ := |p.u0| * t * (p.gamma 
 
 /-- `nohShock` is the position the traced tree branches on -/
 theorem noh_shock_is_coded (p : Noh.P) (r t : ℝ) : Noh.leaf p r t = 0 ↔ r < nohShock p t := by
-  simp only [epv_tree]
-  split_ifs with h <;> simp only [epv_cond] at h <;> simp [nohShock, h]
+  rw [EPV.Bridge.noh_leaf_zero_iff, EPV.Bridge.noh_c0_iff, nohShock]
 
 /-- the shock moves outward with speed D = |u₀| (γ-1)/2 -/
 theorem noh_shock_speed (p : Noh.P) (t : ℝ) :
